@@ -1249,7 +1249,7 @@ def run(ctx, prop='C01'):
         from harness.props import c01_ties
         k = ctx.scale(1, 6)
         c01_ties.run_ties(ctx, {'tie-mft': 25 * k, 'tie-czt': 25 * k, 'tie-zoom': 20 * k, 'tie-zoomaxes': 12 * k, 'tie-state': 25 * k,
-                                'tie-lit': 16 * k, 'tie-select': 40 * k, 'tie-roundtrip': 40 * k, 'tie-fftw': 16 * k, 'tie-nft': 20 * k, 'tie-mux': 20 * k, 'tie-mftstate': 25 * k})
+                                'tie-lit': 16 * k, 'tie-select': 40 * k, 'tie-roundtrip': 40 * k, 'tie-fftw': 16 * k, 'tie-nft': 20 * k, 'tie-mux': 20 * k, 'tie-mftstate': 25 * k, 'tie-scale': 30 * k})
     if ctx.boundary_skipped > 0.05 * max(1, ctx.traces_validated):
         raise MachineryError('more than 5 % of the correspondence cases were skipped at a float decision boundary')
 
